@@ -21,7 +21,7 @@ IMPORTS = ("From CV Require Import Base.Cmp Base.QcLin Model.C16_Solve.\n"
            "From Coq Require Import QArith String. Open Scope string_scope.")
 RULE = ("integer least-squares problems (m,n<=5, cond(A^TA+shift)<=1e4) x shape(over/square/under) x shift(0/dyadic>0) x "
         "operator form(dense/sparse/callable) x start(zero/random): CGLS iterates 0..K and runs to the stopping rule "
-        "(residual clause, |x|*tol>=1 clause, maxit); PCGLS x preconditioner(identity/diagonal/triangular/general) x "
+        "(residual clause, |x|*tol>=1 clause, maxit, right-hand side scaled by 2^-12 / 2^10); PCGLS x preconditioner(identity/diagonal/triangular/general) x "
         "(explicit inverse/spsolve) x shift; FISTA/ISTA x prox(L1,L1*strength,nonneg,box None/scalar/vector) x form x dyadic/float "
         "step below 1/L; projections and soft-thresholding on dyadic vectors incl. ties and negative gamma; LM one-unknown "
         "quadratic residuals (dense/sparse) + 2-unknown stationarity; SciPy wrappers per method. distinct = distinct "
@@ -253,8 +253,20 @@ def ne_resid(A, b, shift, x):
     return A.T @ (np.asarray(b, dtype=float) - A @ x) - shift * x
 
 
+def not_converged(meta, k, maxit):
+    """exact CG needs at most n iterations; cond <= 1e4 and n <= 5: a float run that has not met a relative tolerance >= 1e-8 after
+    50+ iterations does not converge (the property is about runs to convergence: the harness checks that the stopping test fires)"""
+    if maxit >= 50 and k >= maxit:
+        return "%s did not reach its stopping rule within %d iterations on a %dx%d problem with cond <= 1e4 (exact CG needs <= %d)" % (
+            meta["op"], maxit, len(meta["A"]), len(meta["x0"]), len(meta["x0"]))
+    return None
+
+
 def oracle_cgls(meta, x, k, maxit, tol):
     """run to convergence => the returned point solves (A^T A + shift I) x = A^T b to the requested relative tolerance"""
+    nc = not_converged(meta, k, maxit)
+    if nc:
+        return nc
     if k >= maxit or np.linalg.norm(x) * tol >= 0.999:
         return None                      # not stopped by the residual clause: nothing is promised
     s0 = np.linalg.norm(ne_resid(meta["A"], meta["b"], meta["shift"], meta["x0"]))
@@ -266,6 +278,9 @@ def oracle_cgls(meta, x, k, maxit, tol):
 
 def oracle_pcgls(meta, x, k, maxit, tol):
     """the documented system is the shifted one: (A^T A + shift I) x = A^T b, in the preconditioned norm"""
+    nc = not_converged(meta, k, maxit)
+    if nc:
+        return "pcgls", nc
     if k >= maxit or np.linalg.norm(x) * tol >= 0.999:
         return None, None
     Pinv = np.linalg.inv(np.array(meta["P"], dtype=float))
@@ -403,7 +418,7 @@ def sp_record(res):
 def info_record(info):
     g = info["grad"]
     return "(mk_info %s %s %s %s %s %s)" % (cbool(bool(info["success"])), cstr(str(info["message"])), cq(float(info["func"])),
-                                            "None" if g is None else "(Some %s)" % cqvec(fl(g)), cz(info["nit"]), cz(info["nfev"]))
+                                            "None" if g is None else "(Some %s)" % cqvec(fl(g)), cz(-1 if info["nit"] is None else info["nit"]), cz(info["nfev"]))
 
 
 def drive_minimize(meta):
@@ -479,7 +494,9 @@ def case_pcgls_iters(meta):
     if meta["form"] != "dense" or meta["pinv"] != "explicit":
         m2 = dict(meta, form="dense", pinv="explicit")
         obs2 = [drive_pcgls(m2, j, 0.0)[0] for j in range(K + 1)]
-        same = all(np.allclose(a, b, rtol=1e-9, atol=1e-9) for a, b in zip(obs, obs2))
+        # 1e-6: different but equivalent float evaluations of P^-1 (explicit inverse vs sparse solve) on a system whose
+        # preconditioned condition number may reach ~1e7 legitimately differ by ~1e-9 near convergence
+        same = all(np.allclose(a, b, rtol=1e-6, atol=1e-6) for a, b in zip(obs, obs2))
         if not same:
             fail, sig = "iterates of form %s/%s differ from the dense explicit form: %s vs %s" % (meta["form"], meta["pinv"], obs, obs2), SIG["pcgls_forms"]
         expr += " && %s" % cbool(same)
@@ -618,16 +635,22 @@ def case_minimize(meta):
         sig = SIG["minimize_nojac"] if nojac and "KeyError('jac')" in out["raised"] else SIG["minimize"]
         return Case(expr=expr, meta=meta, cell=cell, kind="DECISION", impl_fail=fail, signature=sig)
     sol, info = out["sol"], out["info"]
-    if "jac" in res:
+    # repaired maximize (fixes/C16_maximize_info_sign.diff): info["func"]/["grad"] negated back.  Recognised by the value
+    # (when SciPy's fun is 0 both states coincide); any other value matches neither model and is a disagreement.
+    fixed_max = (op == "maximize" and float(res["fun"]) != 0.0 and float(info["func"]) == -float(res["fun"]))
+    if fixed_max:
+        expr = "check_maximize_fixed %s %s %s" % (sp_record(res), cqvec(fl(sol)), info_record(info))
+    elif "jac" in res:
         expr = "check_minimize %s %s %s" % (sp_record(res), cqvec(fl(sol)), info_record(info))
     else:   # repaired wrapper: a missing 'jac' is passed on as None
         expr = "check_minimize_nojac %s %s %s" % (sp_record(res), cqvec(fl(sol)), info_record(info))
     # arguments handed to SciPy: x0, method, jac
     passed_ok = (np.array_equal(np.asarray(a[1]), np.array(meta["x0"], dtype=float)) and k.get("method") == meta["method"])
     # independent oracle: returned solution and info are SciPy's, unchanged
-    same = (np.array_equal(np.asarray(sol), res["x"]) and info["func"] == res["fun"] and info["nit"] == res.get("nit") and info["nfev"] == res["nfev"]
+    sgn = -1.0 if fixed_max else 1.0
+    same = (np.array_equal(np.asarray(sol), res["x"]) and info["func"] == sgn * res["fun"] and info["nit"] == res.get("nit") and info["nfev"] == res["nfev"]
             and bool(info["success"]) == bool(res["success"]) and info["message"] == res["message"]
-            and (("jac" not in res and info["grad"] is None) or np.array_equal(info["grad"], res["jac"])))
+            and (("jac" not in res and info["grad"] is None) or ("jac" in res and np.array_equal(info["grad"], sgn * np.asarray(res["jac"])))))
     typ_ok = True
     if meta.get("cuqiarray"):
         import cuqi
@@ -727,10 +750,22 @@ BUILDERS = {
 }
 
 
-def build_case(meta, rng):
+def _build_case(meta, rng):
     if meta["op"] in ("prox_l1", "nonneg", "box"):
         return case_prox(meta, rng)
     return BUILDERS[meta["op"]](meta)
+
+
+def build_case(meta, rng):
+    """a non-finite result or an exception escaping the implementation on a generated (well-conditioned, finite) problem is a
+    failure of the property with this input as the concrete witness -- not a crash of the generator"""
+    try:
+        return _build_case(meta, rng)
+    except Exception as e:
+        what = ("returned a non-finite value" if "non-finite" in str(e) else "raised %s" % type(e).__name__)
+        return Case(expr="false", meta=meta, cell="abnormal/%s" % meta.get("op", "?"), kind="DECISION",
+                    impl_fail="%s %s on a finite well-conditioned input: %r" % (meta.get("op"), what, str(e)[:300]),
+                    signature=classify(meta, str(e)))
 
 
 # ------------------------------------------------------------------------------------------
@@ -777,6 +812,13 @@ def metas(ctx):
                     me2["x0"] = [rng.choice([-1, 1]) * rng.randint(3, 9) for _ in me2["x0"]]
                     me2["start"] = "random"
                 out.append(dict(me2, op="cgls_solve", stopcell=stopcell))
+            # the stopping rule is RELATIVE to |s_0|: tiny and large right-hand sides (dyadic scaling keeps the data exact)
+            if form in ("dense", "fun") or ctx.thorough:
+                for sc_name, sc in [("rhs*2^-12", 2.0 ** -12), ("rhs*2^10", 2.0 ** 10)]:
+                    me3 = gen_lsq_meta(rng, shape, shiftcell, "zero", form)
+                    me3["b"] = [v * sc for v in me3["b"]]
+                    me3.update(tol=1e-6, maxit=100, start="zero")
+                    out.append(dict(me3, op="cgls_solve", stopcell="tol1e-6/" + sc_name))
     # degenerate starts: x0 already the solution (gamma_0 = 0), zero right-hand side
     for form in ["dense", "fun"]:
         A = [[1, 0], [0, 2], [0, 0]]
@@ -910,7 +952,7 @@ def run(ctx):
         for me in [W_PCGLS_SHIFT, W_MAXIMIZE_INFO, W_MIN_NOJAC] + metas(ctx):
             cases.append(build_case(me, _r.Random(int(hashlib.sha1(json.dumps(me, sort_keys=True, default=str).encode()).hexdigest()[:8], 16))))
     return Result(cases=cases, rule=RULE,
-                  assumptions=["float rounding is not modelled: CGLS/PCGLS/FISTA/LM iterates are compared with the model's exact rationals within 1e-9 "
+                  assumptions=["float rounding is not modelled: CGLS/FISTA/LM iterates are compared with the model's exact rationals within 1e-9, PCGLS iterates within 1e-6 "
                                "(relative+absolute), converged points within 1e-6; projections and soft-thresholding are compared exactly on dyadic data",
                                "LA.norm(.)**2 is modelled as the exact sum of squares; tol/abstol/gradtol >= 0",
                                "iteration counts may differ from the exact-arithmetic count only when a stopping comparison is within 1e-6 relative of equality (cg_margin)",
